@@ -61,7 +61,7 @@ Proof.
   cbn [vadd vscale map nth]. rewrite !Qred_correct, Hl, H0. unfold Qdiv. ring.
 Qed.
 
-(* F-C16-6, the witness observed on the real objects (checked on every run): driver = step measure with densities 3/2, 15/4, 9/4, 21/4 on
+(* F-C16-7, the witness observed on the real objects (checked on every run): driver = step measure with densities 3/2, 15/4, 9/4, 21/4 on
    [-3/4,-5/64], [-5/64,0], [0,5/64], [5/64,3/4]; level-0 grid h = 1/4: _integral_zz = 1935/2048; level-1 grid h = 1/8:
    _integral_zz = 994691/1048576, chain drift -1627/2048 (level 1), -103/128 (level 0); Libor rates 1/32, 1/16 on tenors 1, 3/2, 2,
    sigma = 1/2, 1/4; driver path times 0, 1/2, 1, jumps 0, 1/4, 1/4, diffusion 0, 1/8, 0 for both components.
